@@ -17,6 +17,7 @@ import ast
 from ..alg import Poly, Q, MQ, is_zero, rank as exact_rank
 from ..elems import ElemLib, topology
 from ..gausslib import GaussLib, SHAPE_DIM
+from .. import beamops
 from ..femchain import OpaqueGroup, XFe, fe_hook_full
 from ..repo import AnalysisError, dotted, norm_text
 from ..xeval import Interp, XObj, Opaque
@@ -480,6 +481,7 @@ def run(ctx):
     congruence_rules(ctx, lib)
     rank_rules(ctx, lib, gl)
     weights_rule(ctx, gl, lib)
+    beamops.rule(ctx, lib, "R2.7")
     sri_rule(ctx, lib)
     if ctx.tier == "thorough":
         patch_rank(ctx, lib, gl)
